@@ -142,7 +142,8 @@ class GlomError(Exception):
             # creating the class can fail, too (final classes, __init_subclass__ hooks)
             exc_wrapper_type = type(f"GlomError.wrap({exc_type.__name__})", bases, {'__str__': GlomError.__str__})
             wrapper = exc_wrapper_type(*exc.args)
-            wrapper.args = exc.args  # __init__ may have rewritten them
+            if wrapper.args != exc.args:  # __init__ may have rewritten them
+                wrapper.args = exc.args
             wrapper.__wrapped = exc
             return wrapper
         except Exception:  # maybe exception can't be re-created
@@ -2300,9 +2301,10 @@ def glom(target, spec, **kwargs):
             # stack trace with the explicit "raise err" below
             try:
                 err = copy.copy(e)
+                if err.args != e.args:  # copying re-runs __init__, which may rewrite them
+                    err.args = e.args
             except Exception:  # e.g., a subclass whose __init__ does not accept e.args
                 err = e
-            err.args = e.args  # copying re-runs __init__, which may rewrite them
             err._set_wrapped(e)
         else:
             err = GlomError.wrap(e)
